@@ -1,0 +1,13 @@
+//go:build !verif
+
+package hsrv
+
+/*
+ * verif_off.go
+ * Verification hook points, compiled out
+ */
+
+import "net/http"
+
+// verifServer is a no-op unless built with -tags verif.
+func verifServer(*http.Server) {}
